@@ -85,6 +85,12 @@ def gen_ref(rng, sw):
                 unit = "".join(rng.choice(a) for _ in range(rng.randint(1, 3)))
                 s_ = (unit * 8)[:rng.randint(2, 12)]
             ref.append(s_[:14])
+    elif sw["style"] == "huge":
+        # thousands of references (beyond any "small input" fast path), built from a few hundred distinct strings
+        n = rng.randint(1000, 4000)
+        lo, hi = sw["len_range"]
+        pool = ["".join(rng.choice(a) for _ in range(rng.randint(max(lo, 3), max(hi, 6)))) for _ in range(rng.choice([40, 300, 1500]))]
+        ref = [rng.choice(pool) for _ in range(n)]
     elif sw["style"] == "big":
         n = rng.randint(60, 200)
         lo, hi = sw["len_range"]
@@ -110,7 +116,7 @@ def gen_ref(rng, sw):
 def gen_queries(rng, sw, ref, k, mode):
     a = sw["alphabet"]
     nq = rng.randint(1, 6 if sw["style"] != "long" else 4)
-    if sw.get("many_queries") and sw["style"] in ("short", "big", "runs"):
+    if sw.get("many_queries") and sw["style"] in ("short", "big", "runs", "huge"):
         nq = rng.choice([30, 60])
     subs = mode == "hamming" and rng.random() < 0.8
     out = []
@@ -148,7 +154,11 @@ def gen_queries(rng, sw, ref, k, mode):
 def generate(seed, tier, index=0):
     rng = random.Random(seed)
     style = rng.choice(["short"] * 8 + ["clonal"] * 7 + ["long"] * 3 + ["big"] * 2 + ["runs"] * 2)
-    if style in ("short", "big", "runs"):
+    if rng.random() < (0.012 if tier == "thorough" else 0.004):
+        style = "huge"
+    if style == "huge":
+        alphabet = "".join(rng.sample(AA, rng.choice([3, 4, 6])))
+    elif style in ("short", "big", "runs"):
         alphabet = "".join(rng.sample(AA, rng.choice([2, 2, 3])))
     else:
         alphabet = "".join(rng.sample(AA, rng.choice([3, 6, 20])))
@@ -161,7 +171,7 @@ def generate(seed, tier, index=0):
         "db_kinds": rng.choice([["symdel"], ["lookup"], ["symdel", "lookup"], ["symdel", "lookup"]]),
         "many_queries": rng.random() < 0.08,
         "faults": ([f for f in ("callback_raise", "async_interrupt") if rng.random() < 0.7] or ["async_interrupt"]) if faults_on else [],
-        "n_ops": rng.randint(3, 14),
+        "n_ops": rng.randint(3, 14) if style != "huge" else rng.randint(2, 5),
         "p_hamming": rng.choice([0.0, 0.2, 0.5]),
         "p_progress": rng.choice([0.0, 0.15]),
         "max_slots": rng.choice([1, 2, 3]),
@@ -176,7 +186,7 @@ def generate(seed, tier, index=0):
     def new_build(slot):
         kind = rng.choice(sw["db_kinds"])
         ref = gen_ref(rng, sw)
-        k = rng.choice([1, 1, 2, 2, 3] if style != "long" else [1, 2, 2]) if kind == "symdel" else None
+        k = rng.choice([1, 1, 2, 2, 3] if style not in ("long", "huge") else [1, 2, 2] if style == "long" else [1, 1, 2]) if kind == "symdel" else None
         slots[slot] = {"kind": kind, "ref": ref, "k": k}
         ops.append({"op": "build", "slot": slot, "kind": kind, "ref": ref, "k": k,
                     "container": rng.choice(["list", "list", "list", "ndarray", "tuple"])})
@@ -192,7 +202,7 @@ def generate(seed, tier, index=0):
             mx = max(len(s) for s in q)
             k = 2 if ((mx <= 5 and rng.random() < 0.4) or (mx <= 10 and len(q) <= 3 and rng.random() < 0.06)) else 1
         alias = False
-        if rng.random() < 0.05 and (d["kind"] == "symdel" or max(len(s) for s in d["ref"]) <= 14):
+        if rng.random() < 0.05 and len(d["ref"]) <= 300 and (d["kind"] == "symdel" or max(len(s) for s in d["ref"]) <= 14):
             q, alias = list(d["ref"]), True  # the queries ARE the reference (same content; same object when 'alias')
             if d["kind"] == "lookup":
                 k = 1
@@ -247,7 +257,7 @@ def generate(seed, tier, index=0):
                 a["mode"] = "default"
                 fault = {"kind": fk, "fail_at": rng.choice([1, 1, 2, 3, 5, 8, 20])}
             else:
-                fault = {"kind": fk, "k": int(math.exp(rng.uniform(0, math.log(60000 if style in ("big", "long") else 5000))))}
+                fault = {"kind": fk, "k": int(math.exp(rng.uniform(0, math.log(60000 if style in ("big", "long") else 2000000 if style == "huge" else 5000))))}
             lookups.append(len(ops))  # the same queries may be re-issued later, unfaulted ('repeat' drops the fault)
             ops.append(dict(a, op="faulty_lookup", fault=fault))
         else:
